@@ -217,3 +217,39 @@ Proof. destruct s as [k x b i tb q0 n rb sb sl ak]. brk. cbn [kd st bound intab 
 Lemma seg_sdp_tabled v p s tm orc : (kd s = SDP -> tabled s = true) ->
   kd (o_sock (seg v p s tm orc)) = SDP -> tabled (o_sock (seg v p s tm orc)) = true.
 Proof. intros H E. rewrite seg_kd in E. apply seg_tabled; auto. Qed.
+
+(* calls of the server loops (poll, recv, send, accept) on a closed socket end in nfc.llcp.Error *)
+Definition srv_class (p : point) : bool :=
+  match p with
+  | PPoll0 _ | PPoll1 _ | PRecv0 | PRecv1 | PSend0 _ | PSendBind _ | PSend0b _ | PSend1 _ | PAcc1 | PAcc3 _ => true
+  | _ => false
+  end.
+Definition is_llcp (r : res rv) : bool := match r with Err (LlcpError _) => true | _ => false end.
+Definition srv_out (a : act) : Prop :=
+  match a with AGoto q => srv_class q = true | ARet r => is_llcp r = true | _ => False end.
+
+Lemma seg_srv_shut p s orc :
+  st s = SHUTDOWN -> intab s = false -> (kd s = DLC -> rq s = []) -> pk p (kd s) = true -> srv_class p = true ->
+  srv_out (o_act (seg Fixed p s true orc)).
+Proof. destruct s as [k x b i tb q0 n rb sb sl ak]. brk. cbn [kd st bound intab tabled rq sq rbuf sbuf slots acks].
+  intros -> -> Hq. destruct p; cbn [srv_class]; try discriminate; destruct k; cbn [pk kind_eqb negb orb]; try discriminate;
+    intros _ _; try (rewrite (Hq eq_refl)); cbn; dm; cbn; auto;
+    try (rewrite andb_false_r in *; discriminate). Qed.
+
+Lemma seg_srv_fresh p s orc :
+  tabled s = false -> bound s = false -> intab s = false -> rq s = [] ->
+  (kd s = DLC -> live (st s) = false) -> ptab p (kd s) = false -> pk p (kd s) = true -> srv_class p = true ->
+  srv_out (o_act (seg Fixed p s true orc)).
+Proof. destruct s as [k x b i tb q0 n rb sb sl ak]. brk. cbn [kd st bound intab tabled rq sq rbuf sbuf slots acks].
+  intros -> -> -> -> Hl. destruct p; cbn [srv_class]; try discriminate; destruct k; cbn [pk kind_eqb negb orb ptab]; try discriminate;
+    intros _ _ _; try (specialize (Hl eq_refl)); destruct x; cbn in *; try discriminate; dm; cbn; auto;
+    try (rewrite andb_false_r in *; discriminate). Qed.
+
+Lemma seg_ret_not_sock v p s tm orc c : o_act (seg v p s tm orc) <> ARet (Ok (VSock c)).
+Proof. destruct s as [k x b i tb q0 n rb sb sl ak]. brk. cbn [kd st bound intab tabled rq sq rbuf sbuf slots acks].
+  destruct p; dm; cbn; discriminate. Qed.
+
+Lemma rank_le4 p : rank p <= 4.
+Proof. destruct p; cbn; lia. Qed.
+Lemma rank_pos p : 1 <= rank p.
+Proof. destruct p; cbn; lia. Qed.
